@@ -15,6 +15,10 @@ import (
 
 const TimerFires = 2
 
+// MaxTimerFires bounds the total number of timer/ticker firings on one path, so that retry loops
+// driven by timers cannot spin forever and the system reaches quiescence (a stated bound).
+const MaxTimerFires = 4
+
 func (e *Engine) timeType() types.Type { return e.lookupType("time", "Time") }
 
 func (e *Engine) freshNow(st *State) Value {
@@ -60,7 +64,7 @@ func (e *Engine) newTimerChan(st *State, fires int) ChanV {
 
 // timerReady reports whether a timer channel may deliver now.
 func (e *Engine) timerReady(o *Object) bool {
-	if o.Aux == nil {
+	if o.Aux == nil || e.curTimerFires >= MaxTimerFires {
 		return false
 	}
 	t, ok := o.Aux["timer"].(*smt.Term)
